@@ -221,7 +221,7 @@ fn gen_msg(g: &mut G, k: &Knobs, actor: usize, n_actors: usize, depth: u32, join
             1 => JobOut::Abort,
             _ => JobOut::Value,
         };
-        MsgKind::Join { delay_ms: g.below(4), out }
+        MsgKind::Join { delay_ms: g.pick(&[0u64, 1, 2, 3, 10, 50]), out }
     } else if g.chance(k.w_workr * 10) {
         MsgKind::WorkR { err: g.chance(500) }
     } else {
